@@ -17,3 +17,5 @@ pub mod gen_zoo;
 pub mod util;
 pub mod pairing;
 pub mod h2c;
+pub mod config;
+pub mod gen_config;
